@@ -144,7 +144,11 @@ def run(ctx: Ctx):
                     comp, _ = build(cls, x["c"], x["alarms"])
                     for route in ("api", "text"):
                         if route == "text":
-                            comp = cls.from_ical(comp.to_ical())
+                            # enumerated parameter values are case-insensitive: RELATED=end is RELATED=END
+                            import re as _re
+                            wire = _re.sub(rb"RELATED=(START|END)", lambda m: b"RELATED=" + bytes(
+                                (ch | 0x20) if rnd.random() < 0.5 else ch for ch in m.group(1)), comp.to_ical())
+                            comp = cls.from_ical(wire)
                         ob = observe(comp)
                         ctx.evaluations += 1
                         judge(ctx, v, ob, {"x": x, "cls": cls.__name__, "route": route, "provider": prov})
